@@ -13,7 +13,7 @@ RULE = ("elevation rasters 3x3..14x14 over value classes {small ints with platea
 BUDGET = {'quick': 80, 'thorough': 500}
 FLOORS = {'quick': {'slope.formula': 150, 'aspect.formula': 150, 'curvature.formula': 150, 'hillshade.formula': 150,
                     'locality': 1500, 'offset_invariance': 200, 'quarter_turn': 150, 'border_nan': 600, 'cx!=cy': 100,
-                    'flat_window': 100, 'nan_contained': 300, 'derived_raster_uses_own_cellsize': 20},
+                    'flat_window': 100, 'nan_contained': 300, 'derived_raster_uses_own_cellsize': 16},
           'thorough': {'slope.formula': 1500, 'locality': 15000, 'quarter_turn': 1500}}
 ASSUMPTIONS = ['aspect and hillshade as documented do not use the cell size; slope uses (cx, cy), curvature the mean cell size',
                'aspect is do-not-care where the gradient magnitude is within 1e3x of the float32 rounding noise of the window sums',
